@@ -157,7 +157,7 @@ func TestVerifC03Sched(t *testing.T) {
 		// per thread: the scheduler step of its last operation on a counter state word
 		lastStateOp := map[int]int{}
 		c03StepHook = func(step int, th *vhook.Thread) {
-			env.stepNow = step
+			env.noteStep(step, th)
 			// th.Site is the operation the thread is parked at and performs in this step
 			if strings.HasPrefix(th.Site, "counter.go:") && (strings.Contains(th.Site, ":update:") || strings.Contains(th.Site, ":load:")) {
 				lastStateOp[th.ID] = step
@@ -179,9 +179,9 @@ func TestVerifC03Sched(t *testing.T) {
 							return
 						}
 					} else if cur := curCounter[th.ID]; cur != nil && !env.closedEntry(th.FaultAddr).reg[cur] {
-						// second listed finding: the counter was not yet on the file's list when the mapping
-						// was closed (another goroutine was still registering it), so it was never invalidated
-						// and kept a pointer into the closed mapping
+						// second listed finding: the counter was not yet on the file's list when the list was
+						// walked to invalidate pointers into the mapping (another goroutine was still registering
+						// it), so it was never invalidated and kept a pointer into the mapping closed afterwards
 						sig := "use-after-unmap-unregistered"
 						if vstats.Known(sig) {
 							knownHit = true
